@@ -104,6 +104,50 @@ def variants(path):
             yield emit("augment", n, ast.Assign(targets=[n.target], value=ast.BinOp(left=tgt_load, op=n.op, right=n.value), lineno=n.lineno))
         if isinstance(n, ast.UnaryOp) and isinstance(n.op, ast.Not) and isinstance(n.operand, ast.BoolOp) and isinstance(n.operand.op, ast.Or):
             yield emit("demorgan", n, ast.BoolOp(op=ast.And(), values=[ast.UnaryOp(op=ast.Not(), operand=v) for v in n.operand.values]))
+        # --- fourth generation: comprehension <-> loop, conditional expression <-> if/else ----------------------------------
+        if isinstance(n, ast.Assign) and len(n.targets) == 1 and isinstance(n.targets[0], ast.Name) and isinstance(n.value, ast.ListComp) and len(n.value.generators) == 1 \
+                and not any(isinstance(x, ast.Name) and x.id == n.targets[0].id for x in ast.walk(n.value)) and isinstance(getattr(n, "parent", None), (ast.FunctionDef, ast.For, ast.If, ast.While, ast.With)):
+            g = n.value.generators[0]
+            x = n.targets[0].id
+            app = ast.Expr(value=ast.Call(func=ast.Attribute(value=ast.Name(id=x, ctx=ast.Load()), attr="append", ctx=ast.Load()), args=[n.value.elt], keywords=[]))
+            body = [app]
+            for c in reversed(g.ifs):
+                body = [ast.If(test=c, body=body, orelse=[])]
+            loop = ast.For(target=g.target, iter=g.iter, body=body, orelse=[], lineno=n.lineno)
+            init = ast.Assign(targets=[ast.Name(id=x, ctx=ast.Store())], value=ast.List(elts=[], ctx=ast.Load()), lineno=n.lineno)
+            a, b = seg(n)
+            indent = " " * n.col_offset
+            src_new = ast.unparse(ast.fix_missing_locations(init)) + "\n" + indent + ("\n" + indent).join(ast.unparse(ast.fix_missing_locations(loop)).splitlines())
+            out = text[:a] + src_new + text[b:]
+            try:
+                ast.parse(out)
+                yield ("compr2loop", n.lineno, out)
+            except SyntaxError:
+                pass
+        if isinstance(n, ast.Assign) and len(n.targets) == 1 and isinstance(n.targets[0], ast.Name) and isinstance(n.value, ast.IfExp):
+            new = ast.If(test=n.value.test, body=[ast.Assign(targets=n.targets, value=n.value.body, lineno=n.lineno)],
+                         orelse=[ast.Assign(targets=n.targets, value=n.value.orelse, lineno=n.lineno)])
+            yield emit("ifexp2if", n, ast.fix_missing_locations(new))
+        if isinstance(n, ast.If) and len(n.body) == 1 and len(n.orelse) == 1 and isinstance(n.body[0], ast.Assign) and isinstance(n.orelse[0], ast.Assign) \
+                and len(n.body[0].targets) == 1 and ast.dump(n.body[0].targets[0]) == ast.dump(n.orelse[0].targets[0]) and isinstance(n.body[0].targets[0], ast.Name) \
+                and not text[seg(n)[0]:seg(n)[0] + 4] == "elif":
+            new = ast.Assign(targets=n.body[0].targets, value=ast.IfExp(test=n.test, body=n.body[0].value, orelse=n.orelse[0].value), lineno=n.lineno)
+            yield emit("if2ifexp", n, ast.fix_missing_locations(new))
+        # --- third generation: a logging line in front of a statement -------------------------------------------------
+        if isinstance(n, ast.stmt) and not isinstance(n, (ast.FunctionDef, ast.ClassDef, ast.Import, ast.ImportFrom)) and isinstance(getattr(n, "parent", None), (ast.FunctionDef, ast.For, ast.While, ast.If, ast.With, ast.Try)) \
+                and "logging" in text and not (isinstance(n, ast.Expr) and isinstance(n.value, ast.Constant)) and not text[seg(n)[0]:seg(n)[0] + 4] in ("elif", "else"):
+            par = n.parent
+            in_body = any(n is x for x in getattr(par, "body", []))
+            first_doc = isinstance(par, ast.FunctionDef) and par.body and par.body[0] is n
+            if (in_body or any(n is x for x in getattr(par, "orelse", []))) and not first_doc and not (isinstance(par, ast.If) and any(n is x for x in par.orelse) and len(par.orelse) == 1 and isinstance(n, ast.If)):
+                a, _b = seg(n)
+                indent = " " * n.col_offset
+                out = text[:a] + 'logging.debug("checkpoint %d")\n%s' % (n.lineno, indent) + text[a:]
+                try:
+                    ast.parse(out)
+                    yield ("loginsert", n.lineno, out)
+                except SyntaxError:
+                    pass
         # --- second generation -------------------------------------------------------------------------------------
         if isinstance(n, ast.If) and pure(n.test) and not text[seg(n)[0]:seg(n)[0] + 4] == "elif" and isinstance(getattr(n, "parent", None), (ast.FunctionDef, ast.For, ast.While, ast.If)) \
                 and not any(isinstance(x, ast.NamedExpr) for x in ast.walk(n.test)):
